@@ -180,18 +180,21 @@ fn measure_cost(out: &mut Out, rng: &mut Rng, op: u8, b2: Option<u8>, base: u8, 
     let mut prog = vec![op];
     if op >= 0xF0 {
         if (op & 0x0F) == 0x0B || (op & 0x0F) == 0x0F {
-            prog.push(if io_bias { 0xF0 + rng.byte() % 16 } else { rng.byte() % 0xE0 });
+            prog.push(if rng.chance(1, 4) { *rng.pick(&[0xEFu8, 0xEE, 0xF0]) } else if io_bias { 0xF0 + rng.byte() % 16 } else { rng.byte() % 0xF0 });
         }
         let b = b2.unwrap_or(0x10);
         prog.push(b);
         if (b & 0x0F) == 0x0F && b != 0x13 {
-            prog.push(if io_bias { 0xF0 + rng.byte() % 16 } else { rng.byte() % 0xE0 });
+            prog.push(if rng.chance(1, 4) { *rng.pick(&[0xEFu8, 0xEE, 0xF0]) } else if io_bias { 0xF0 + rng.byte() % 16 } else { rng.byte() % 0xF0 });
         }
     } else if op == 0x28 || (0x20..=0x27).contains(&op) {
         prog.push(rng.byte() % 0x40);
     } else if (0x50..=0x5F).contains(&op) && ((op & 0x0F) == 0x0B || (op & 0x0F) == 0x0F) {
-        prog.push(rng.byte() % 0xE0);
+        prog.push(if rng.chance(1, 4) { *rng.pick(&[0xEFu8, 0xEE, 0xF0]) } else { rng.byte() % 0xF0 });
     }
+    // every byte of the instruction must be placeable: RAM up to 0xEF, then the board's input port
+    // at 0xF0 (0xF1-0xFB cannot hold code)
+    let base = if base as usize + prog.len() - 1 > 0xF0 { (0xF0 - (prog.len() - 1)) as u8 } else { base };
     prog.push(0x02);
     prog.push(0x02);
     for (i, b) in prog.iter().enumerate() {
@@ -204,12 +207,21 @@ fn measure_cost(out: &mut Out, rng: &mut Rng, op: u8, b2: Option<u8>, base: u8, 
             run_line(out, &mut s, &format!("in {} {}", a - 0xFC, b));
         }
     }
-    let addr = |rng: &mut Rng| if io_bias && rng.chance(1, 2) { 0xF0 + rng.byte() % 16 } else { rng.byte() % 0xE0 };
+    // data addresses: RAM, I/O, and the cells around the RAM / I-O boundary
+    let addr = |rng: &mut Rng| {
+        if rng.chance(1, 4) {
+            *rng.pick(&[0xEFu8, 0xEF, 0xEE, 0xF0, 0xED])
+        } else if io_bias && rng.chance(1, 2) {
+            0xF0 + rng.byte() % 16
+        } else {
+            rng.byte() % 0xF0
+        }
+    };
     let (r0, r1) = match fixed {
         Some(p) => p,
         None => (addr(rng), addr(rng)),
     };
-    let sp = if io_bias && rng.chance(1, 3) { 0xF0 + rng.byte() % 3 } else { 0x60 + rng.byte() % 0x80 };
+    let sp = if rng.chance(1, 4) { *rng.pick(&[0xEFu8, 0xF0, 0xEE, 0xF1]) } else if io_bias && rng.chance(1, 3) { 0xF0 + rng.byte() % 3 } else { 0x60 + rng.byte() % 0x80 };
     let regs = [r0, r1, addr(rng), base, rng.byte() & 0x07, sp, rng.byte(), rng.byte()];
     run_line(out, &mut s, &format!("force 0 2 {} - 0 0 0 0 0 0 0 R 0", hexs(&regs)));
     let mut guard = 0;
@@ -261,7 +273,7 @@ fn measure_cost(out: &mut Out, rng: &mut Rng, op: u8, b2: Option<u8>, base: u8, 
 
 pub fn run_c15(out: &mut Out, seed: u64, thorough: bool) {
     let mut rng = Rng::new(seed);
-    let reps = if thorough { 12 } else { 2 };
+    let reps = if thorough { 12 } else { 4 };
     for op in 0..=255u8 {
         if !defined_first(op) {
             continue;
